@@ -51,6 +51,11 @@ def do_txn(ix, kind, compound):
     elif kind == "delete":
         w.delete_by_term("key", u"k1")
         w.commit(merge=False)
+    elif kind == "empty":
+        w.commit(merge=False)
+    elif kind == "delete2":
+        w.delete_by_term("key", u"k0")
+        w.commit(merge=False)
     elif kind == "delete_optimize":
         w.delete_by_term("key", u"k0")
         w.commit(optimize=True)
@@ -67,13 +72,17 @@ def do_txn(ix, kind, compound):
         raise ValueError(kind)
 
 
-def build_initial(st, compound):
+def build_initial(st, compound, oneseg=False):
     ix = st.create_index(schema())
     w = ix.writer()
     if not compound:
         w.compound = False
     add(w, u"k0")
     add(w, u"k1")
+    if oneseg:
+        add(w, u"k2")
+        w.commit(merge=False)
+        return ix
     w.commit(merge=False)
     w = ix.writer()
     if not compound:
@@ -135,7 +144,7 @@ def expected_generations(cfg):
     work = core.fresh_dir("c03exp")
     try:
         st = FileStorage(work) if cfg["storage"] != "ram" else RamStorage()
-        ix = build_initial(st, cfg["compound"])
+        ix = build_initial(st, cfg["compound"], cfg.get("oneseg"))
         exp = {}
         with ix.searcher() as s:
             exp[ix.latest_generation()] = {"a": probe_a(s), "b": probe_b(s)}
@@ -174,7 +183,7 @@ def one_run(cfg, prefix, expected):
             os.makedirs(d)
             st = S.make_sched_storage(sch, d, lockreg, mutlog, supports_mmap=(cfg["storage"] == "file"))
             sch.state_fn = lambda: S.dir_digest(d)
-        ix_w = build_initial(st, cfg["compound"])
+        ix_w = build_initial(st, cfg["compound"], cfg.get("oneseg"))
         ix_r = st.open_index()
         base_gen = ix_w.latest_generation()
         del mutlog[:]
@@ -341,17 +350,25 @@ def explore_cfg(cfg, bound, max_execs, acc):
 def configs(tier):
     out = []
     txsets = [["append"], ["optimize"], ["delete"], ["add_optimize"], ["clear"], ["merge"], ["update"],
-              ["delete_optimize"], ["append", "optimize"], ["delete", "append2"], ["add_optimize", "append2"]]
+              ["delete_optimize"], ["append", "optimize"], ["delete", "append2"], ["add_optimize", "append2"],
+              # a second delete-only commit on a segment that already has a deletion
+              ["delete", "delete2"],
+              # a commit that changes nothing but the generation
+              ["empty"], ["empty", "append"]]
     storages = [("file", True), ("file", False), ("file_nommap", True), ("ram", True)]
     if tier != "quick":
         storages.append(("file_nommap", False))
-    core_tx = [["optimize"], ["add_optimize"], ["delete"], ["clear"], ["append", "optimize"]]
+    core_tx = [["optimize"], ["add_optimize"], ["delete"], ["clear"], ["append", "optimize"], ["delete", "delete2"], ["empty"]]
     for storage, compound in storages:
         for tx in txsets:
             if tier == "quick" and not (storage == "file" and compound) and tx not in core_tx:
                 continue
             out.append({"name": "%s:%s:%s" % (storage, "compound" if compound else "loose", "+".join(tx)),
                         "storage": storage, "compound": compound, "txns": tx})
+    # single-segment initial index (a lone SegmentReader is what refresh() re-uses)
+    for tx in (["empty"], ["delete"], ["append"], ["empty", "delete"]):
+        out.append({"name": "file:compound:oneseg:%s" % "+".join(tx), "storage": "file", "compound": True,
+                    "txns": tx, "oneseg": True})
     return out
 
 
